@@ -156,7 +156,8 @@ class Ctx:
         if r != z3.sat:
             raise Unsupported(f'concretise {what}: solver unknown')
         v = self.solver.model().eval(e, model_completion=True).as_long()
-        self.alts.append(self.taken + [('alt', excl + (v,))])
+        if self._check(*[e != x for x in excl + (v,)]) != z3.unsat:
+            self.alts.append(self.taken + [('alt', excl + (v,))])
         self.pos += 1
         self.taken.append(('val', v))
         cc = e == v
@@ -672,13 +673,35 @@ class SymInt:
 
     # -- int methods ---------------------------------------------------------------------------------------------
     def bit_length(self):
-        """one path per feasible length k: 2^(k-1) <= |v| < 2^k (the defining inequality)"""
+        """one path per feasible length k: 2^(k-1) <= |v| < 2^k (the defining inequality).
+        The feasible range of k is first narrowed by validity queries (binary search), then forked."""
         c = ctx()
         a = z3.If(self.e >= 0, self.e, -self.e)
-        for k in range(0, 300):
+        MAXK = 1100
+        # smallest hi with valid(a < 2^hi)
+        if not c.valid(a < (1 << MAXK)):
+            raise Unsupported('bit_length of a value not known to be below 2^1100')
+        lo, hi = 0, MAXK
+        while lo < hi:
+            mid = (lo + hi) // 2
+            if c.valid(a < (1 << mid)):
+                hi = mid
+            else:
+                lo = mid + 1
+        k_hi = hi
+        # largest lo with valid(a >= 2^(lo-1)), i.e. bit_length >= lo
+        lo, hi = 0, k_hi
+        while lo < hi:
+            mid = (lo + hi + 1) // 2
+            if c.valid(a >= (1 << (mid - 1))):
+                lo = mid
+            else:
+                hi = mid - 1
+        k_lo = lo
+        for k in range(k_lo, k_hi):
             if c.branch(a < (1 << k)):
                 return k
-        raise Unsupported('bit_length above 300')
+        return k_hi
 
     def to_bytes(self, length=1, byteorder='big', *, signed=False):
         from .bits import SymBytes, Val
